@@ -94,6 +94,8 @@ def run_case(case, obs) -> None:  # noqa: C901, PLR0912, PLR0915
     sname = type(m.system).__name__
     explicit = ispec["int"] in ("leapfrog", "bcss2", "bcss3", "bcss4", "symcomp")
     maxnorm = [0.0]
+    # start states with a past (cache populated at another point, then copied / pickled / deep-copied, then assigned)
+    how = ["fresh", "pickle", "copy", "deepcopy"][int(case["seed"][-1]) % 4]
 
     def step(st):
         """One monitored call of the real Integrator.step."""
@@ -135,7 +137,7 @@ def run_case(case, obs) -> None:  # noqa: C901, PLR0912, PLR0915
         z0 = np.concatenate([q, p])
         maxnorm[0] = float(np.max(np.abs(z0)))
         result["err"] = None
-        st = m.state(q, p, direction)
+        st = m.used_state(q, p, direction, how)
         leg = 1
         try:
             for _ in range(case["n"]):
